@@ -12,8 +12,8 @@
                                  `if_node_could_grant_the_vote_request` (candidate arm)
   * `onVoteRequest`              the three `ReceiveVoteRequest` arms (follower / candidate / leader) +
                                  raft.rs `handle_internal_event` `BecomeFollower` (+ `ReprocessEvent`)
-  * `becomeFollower`             raft.rs `BecomeFollower`: `become_follower()?` then `reset_voted_for`
-                                 (a follower returns `InvalidTransition` before the reset)
+  * `becomeFollower`             raft.rs `BecomeFollower`: `become_follower()?` then reset of a vote of an older term
+                                 only (fix F1; a follower returns `InvalidTransition` before that)
   * `startElection` / `tally`    candidate_state.rs `tick`, election_handler.rs `broadcast_vote_requests`
   * `stepVoteEnd` (won)          raft.rs `BecomeLeader` (`update_voted_for` committed, `init_peers_next_index_and_
                                  match_index`: next = last+1, match 0) + leader_state.rs `initiate_noop_commit`
@@ -189,10 +189,13 @@ inductive Msg
 deriving Repr
 
 -- ---------------------------------------------------------------------------------------- role changes
-/-- raft.rs `BecomeFollower`: a follower fails `become_follower()?` before the vote reset. -/
+/-- raft.rs `BecomeFollower`: a follower fails `become_follower()?`; otherwise the role changes and a vote of an OLDER
+    term is reset (fix F1: a vote cast in the current term survives the step-down). -/
 def becomeFollower (n : Node) : Node :=
   if n.role == .follower then n
-  else { n with role := .follower, vote := none, peers := [], pendingWrites := [], pendingApply := [] }
+  else { n with role := .follower,
+                vote := (match n.vote with | some v => if v.term < n.term then none else some v | none => none),
+                peers := [], pendingWrites := [], pendingApply := [] }
 
 -- ---------------------------------------------------------------------------------------- election
 def lastPair (l : Log) : Nat × Nat := (lastLogId l).getD (0, 0)
@@ -396,7 +399,7 @@ def onAppendEntries (n : Node) (r : AeReq) : Node × Nat × AeResult × String :
     else (n, n.term, .higher n.term, "ae:cand-reject")
   | .leader =>
     if n.term ≥ r.term then (n, n.term, .higher n.term, "ae:leader-reject")
-    else followerAppend (becomeFollower n) r
+    else followerAppend (becomeFollower { n with term := r.term }) r
 
 -- ---------------------------------------------------------------------------------------- leader: responses
 def updatePeer (ps : List Peer) (id : NodeId) (f : Peer → Peer) : List Peer :=
